@@ -12,6 +12,18 @@ CHECKS = {
     "C02": ("exploration", "proptest histories vs independent reference interpreter (RefDoc) of the decoded op set",
             "Model-based: the document's full observable state (current and historical) must equal an independent from-scratch op-based CRDT reading of Change::decode() output.",
             "Trusted: Change::decode() (cross-checked by C10/C18); unicode-segmentation for grapheme widths.", "3/C02, 2.4, B.1"),
+    "C04": ("exploration", "proptest stateful programs; invariant after every step against an independent change graph",
+            "Generated programs (commits, empty changes, merges, forks, actor switches, isolation, loads); each created change's seq/start_op/deps and every replica's heads after every step are checked against a harness-side graph.",
+            "Committed state observed on a clone with the open transaction rolled back. empty_change under isolate() not exercised.", "3/C04"),
+    "C10": ("exploration", "proptest histories; byte-identity of retrieved changes vs bytes recorded at creation, SHA-256 recomputed, set/order oracle from harness graph",
+            "Every retrieval API must return byte-identical changes at later points (after edits, merges, forks, save/load); get_changes(have) compared with graph ancestors.",
+            "Bytes recorded through get_last_local_change immediately after each commit are the reference.", "3/C10"),
+    "C11": ("exploration", "proptest histories; round-trip differential load(save(D)) over deflate x retain_orphans x encodings, byte-identical re-save",
+            "Heads, change bytes, full observation at all recorded heads, pending queue and re-saved bytes compared between a document and its reloaded image.",
+            "Observation through ReadDoc only; queue compared through get_missing_deps and release behaviour.", "3/C11"),
+    "C12": ("exploration", "proptest stateful writer/reader model over save, save_incremental, save_after, load_incremental in order / shuffled / repeated",
+            "Append-only file model: full save plus later pieces must load to the writer's state; readers fed pieces in any order converge; re-feeding is a no-op.",
+            "A new full save closes the previous file (incremental cursor restarts).", "3/C12"),
 }
 
 PENDING = {}
